@@ -23,6 +23,8 @@ DTYPES = [
 SUBBYTE = {"INT4": 4, "UINT4": 4, "FLOAT4E2M1": 4, "INT2": 2, "UINT2": 2}
 
 KINDS = [("np", 10), ("proto", 4), ("lazy", 3), ("packed", 2), ("ext", 4), ("bytesonly", 2), ("torch", 5)]
+# "lazy_fail": a LazyTensor whose evaluation raises (RuntimeError / MemoryError): a failure in the middle of the save that
+# is not an OSError and does not come from a file-system call; assigned to at most one tensor of ~8 % of the cases
 # what the torch exporter really hands over: onnx_ir.tensor_adapters.TorchTensor (its tofile() is a Python-level write)
 TORCH_DTYPES = {"FLOAT": "float32", "DOUBLE": "float64", "FLOAT16": "float16", "BFLOAT16": "bfloat16", "INT8": "int8",
                 "INT16": "int16", "INT32": "int32", "INT64": "int64", "UINT8": "uint8", "BOOL": "bool",
@@ -149,6 +151,13 @@ def gen_recipe(rng: Rng, tier: str, idx: int) -> dict:
     for e in inits:
         if e.get("ext_file") == "sub/@DATA@":
             e["ext_file"] = "sub/" + fname + ".data"
+    if inits and rng.chance(0.08):
+        big = [e for e in inits if e["kind"] in ("np", "lazy", "proto") and "share_with" not in e
+               and not any(x.get("share_with") == inits.index(e) for x in inits)]
+        if big:
+            e = rng.choice(big)
+            e["kind"] = "lazy_fail"
+            e["fail_with"] = rng.choice(["RuntimeError", "MemoryError", "ValueError"])
     return {"idx": idx, "inits": inits, "uninit": uninit, "cfg": cfg, "extras": extras}
 
 
@@ -209,6 +218,13 @@ def make_tensor(e: dict, sandbox: str):
         arr = _np_array(dtype, shape, raw)
         t = ir.LazyTensor(lambda arr=arr, dt=dt, name=name: ir.Tensor(arr, dtype=dt, name=name),
                           dtype=dt, shape=ir.Shape(shape), name=name)
+    elif kind == "lazy_fail":
+        exc = {"RuntimeError": RuntimeError, "MemoryError": MemoryError, "ValueError": ValueError}[e.get("fail_with", "RuntimeError")]
+
+        def boom(exc=exc, name=name):
+            raise exc(f"cannot materialise {name}")
+
+        t = ir.LazyTensor(boom, dtype=dt, shape=ir.Shape(shape), name=name)
     elif kind == "packed":
         packed = np.frombuffer(raw, dtype=np.uint8).copy()
         t = ir.PackedTensor(packed, dt, shape=ir.Shape(shape), name=name)
